@@ -170,6 +170,18 @@ impl QueuingExecutor {
     }
 }
 
+#[cfg(crux_verif)]
+impl QueuingExecutor {
+    /// (live tasks, ready queue length, spawn queue length) for the verification harness
+    pub(crate) fn verif_stats(&self) -> (usize, usize, usize) {
+        (
+            self.tasks.lock().expect("Task slab poisoned").len(),
+            self.ready_queue.len(),
+            self.spawn_queue.len(),
+        )
+    }
+}
+
 enum RunTask {
     Missing,
     Unavailable,
